@@ -125,7 +125,7 @@ class WFull(explore.World):
       b = self.inner.base()
       d = H.Doc.load(b['snap'])
       snap = {tid: json.dumps(d.fetch(tid, formulas=tid.startswith('_grist_'))) for tid in d.table_ids()}
-      self._base = {'snap': snap, 'dump': b['dump'], 'init_log': b['init_log']}
+      self._base = {'snap': snap, 'dump': b['dump'], 'dump_L': b['dump_L'], 'init_log': b['init_log']}
     return self._base
 
 
